@@ -185,7 +185,7 @@ Definition push_blocked (pa : params) (s : state) (sz : N) : bool :=
   (cap pa <? cur s + sz) && (old_rule pa || (0 <? cur s)) && negb (closed s).
 
 (* seq = next_seq; next_seq += 1; items.push; current_size += size; not_empty.notify_one() *)
-Definition admit (s : state) (t : task) (rest : list pop) (ntf : option nat) : option state :=
+Definition do_admit (s : state) (t : task) (rest : list pop) (ntf : option nat) : option state :=
   match notify_empty (ws s) ntf with
   | Some ws' =>
     Some (mkState (mkItem (nseq s) t :: items s) (cur s + tsize t) (closed s) (nseq s + 1) PRun rest ws'
@@ -202,7 +202,7 @@ Definition do_close (s : state) : state :=
 Definition step_push (pa : params) (s : state) (t : task) (rest : list pop) (ntf : option nat) : option state :=
   if closed s then None                                                         (* Err(Closed): see header *)
   else if push_blocked pa s (tsize t) then Some (set_pst s PWaitF)             (* [KF] WF *)
-  else admit s t rest ntf.                                                      (* [KF] A *)
+  else do_admit s t rest ntf.                                                      (* [KF] A *)
 
 (* one atomic step of the producer *)
 Definition step_prod (pa : params) (s : state) (ntf : option nat) : option state :=
@@ -401,8 +401,12 @@ Fixpoint compile_go (concat : bool) (pack : N) (calls : list call)
       | None => (np, setZ smp np m, (np - 1)%Z)
       end in
     if concat && ((gc + 1) mod pack =? 0) then
-      TokenBlock curp no :: Contig sz (curp - 1)%Z no
-                 :: compile_go concat pack r (setZ smp (curp - 1)%Z m1) np1 (no + 1) (gc + 1)
+      (* pack boundary: the sample's priority drops by one; `if *next_p >= new_priority { *next_p = new_priority - 1 }`
+         keeps the priorities of samples seen later below everything pushed so far *)
+      let newp := (curp - 1)%Z in
+      let np2 := if (newp <=? np1)%Z then (newp - 1)%Z else np1 in
+      TokenBlock curp no :: Contig sz newp no
+                 :: compile_go concat pack r (setZ smp newp m1) np2 (no + 1) (gc + 1)
     else
       Contig sz curp no :: compile_go concat pack r m1 np1 (no + 1) (gc + 1)
   end.
